@@ -42,9 +42,12 @@ MANY_NAMED = ['x', 'y', 'z'] + [f'p{i}' for i in range(11)]
 
 
 @st.composite
-def schema(draw, signing_bias=False, max_rules=7):
-    # one schema in four uses a pool of 14 pattern names, so that pattern numbers reach two digits
-    named_pool = MANY_NAMED if draw(st.integers(0, 3)) == 0 else NAMED
+def schema(draw, signing_bias=False, max_rules=7, mode='base'):
+    """mode 'base'   : pattern names x/y/z, independent rules
+       mode 'many'   : a pool of 14 pattern names, so that pattern numbers reach two digits
+       mode 'family' : redefinitions with an identical name pattern, sibling rules sharing a prefix, rules referenced twice
+    Each mode is driven by its own sub-check so that widening one does not thin out the others."""
+    named_pool = MANY_NAMED if mode == 'many' else NAMED
     n = draw(st.integers(2, max_rules)) if named_pool is NAMED else max_rules
     ids = ['#KEY', '#r0', '#r1', '#r2', '#r3', '#r4', '#r5'][:max(2, min(7, draw(st.integers(2, 6))))]
     rules = []
@@ -64,7 +67,7 @@ def schema(draw, signing_bias=False, max_rules=7):
             refable = [d for d in dict.fromkeys(defined) if ids.index(d) < idx] if not temp_rule or True else []
             if kind == 'ref' and refable:
                 items.append({'ref': draw(st.sampled_from(refable))})
-                if draw(st.integers(0, 3)) == 0:
+                if draw(st.integers(0, 3 if mode != 'family' else 1)) == 0:
                     items.append(dict(items[-1]))      # the same rule referenced twice in one name
             elif kind == 'pat':
                 if named_pool is MANY_NAMED:
@@ -76,8 +79,28 @@ def schema(draw, signing_bias=False, max_rules=7):
                 items.append({'pat': draw(st.sampled_from(TEMPS))})
             else:
                 items.append({'lit': draw(st.sampled_from(WORDS))})
+        clone = None
+        same_id = [r_ for r_ in rules if r_['id'] == rid]
+        if mode != 'family':
+            pass
+        elif same_id and not temp_rule and draw(st.integers(0, 2)) == 0:
+            # a redefinition with the IDENTICAL name pattern and constraints (only the signers will differ)
+            clone = draw(st.sampled_from(same_id))
+            items = [dict(i) for i in clone['name']]
+        elif rules and draw(st.integers(0, 3)) == 0:
+            prev = draw(st.sampled_from(rules))
+            if all('ref' not in i or ids.index(i['ref']) < idx for i in prev['name']):
+                # a sibling rule: shares a prefix of an earlier rule's name pattern, then goes its own way
+                k = draw(st.integers(1, len(prev['name'])))
+                items = [dict(i) for i in prev['name'][:k]] + items[:max(0, 4 - k)][:draw(st.integers(0, 2))]
+                items = items or [dict(prev['name'][0])]
         named, temps = _expanded_pats(rules, items)
         cons = []
+        if clone is not None:
+            import copy as _copy
+            rules.append({'id': rid, 'name': items, 'cons': _copy.deepcopy(clone['cons']), 'sign': [], '_idx': idx})
+            defined.append(rid)
+            continue
         if named or temps:
             for _ in range(draw(st.integers(0, 2))):
                 cs = []
